@@ -268,3 +268,18 @@ def linear_steady_exists(spec, params, flat):
     return bool(res <= 1e-10 * (1 + np.max(np.abs(b), initial=0))) and (small / sv.max() > 1e-9 if sv.size else True)
 
 
+
+
+def square_solution_consistent(T, model_eigenvalues, tol=1e-6):
+    """Rank-condition certificate from a solved model's own outputs: the square transition matrix T must carry exactly the
+    stable / unit roots the model reports. When an explosive backward root is offset in the COUNT by a stable forward block,
+    the Blanchard-Kahn counting says "determinate" but no unique stable solution exists; the square solution is then
+    degenerate (its eigenvalues no longer coincide with the reported stable roots). Such models are outside every
+    "unique stable saddle path" quantifier."""
+    ev = np.asarray(model_eigenvalues, dtype=complex)
+    keep = np.sort(np.abs(ev[np.abs(ev) <= 1 + 1e-8]))
+    evT = np.sort(np.abs(np.linalg.eigvals(np.asarray(T, dtype=float))))
+    k = min(len(keep), len(evT))
+    if not k:
+        return True
+    return bool(np.max(np.abs(keep[-k:] - evT[-k:])) <= tol)
